@@ -3,6 +3,8 @@ from . import rules_tables as T
 from . import rules_numeric as N
 from . import rules_cg as G
 from . import rules_lexer as L
+from . import rules_units as U
+from . import rules_store as S
 
 RULES = {
     "T1": T.rule_T1,
@@ -10,6 +12,10 @@ RULES = {
     "T3": T.rule_T3,
     "T6": T.rule_T6,
     "A3": L.rule_A3,
+    "D1": U.rule_D1,
+    "D2": U.rule_D2,
+    "D3": S.rule_D3,
+    "W1": S.rule_W1,
     "G1c": G.rule_G1c,
     "G1r": G.rule_G1r,
     "G2c": G.rule_G2c,
@@ -55,6 +61,20 @@ PROPS = {
         "typestate over the MIR of every Lexer method); (T2, first hop) the operator table is the language's 60 spellings. "
         "Losslessness, positions and longest match depend on the character sequence and are not decided.",
     },
+    "C14": {
+        "rules": ["D1"],
+        "claim": "Decides the bytes-vs-characters clause of C14 over the data crate: no UTF-8 byte length (str::len / String::len) reaches a "
+        "character-count sink (take/skip/nth on chars(), a CharList(n) header, the result of get_char_list_len), and the literal parsers "
+        "contain no truncating char->u8 cast. Radix/escape processing and round-trips are value-level and not decided.",
+    },
+    "C15": {
+        "rules": ["D2", "D3", "W1"],
+        "claim": "Decides three structural clauses of C15: (D2) every index/slice of BasicGarnishData's raw heap vector is rebased on a "
+        "StorageBlock.start (followed through locals, parameters to their call sites, struct fields to their initialisers); (D3) the six "
+        "push_to_*_block siblings and the six copy stanzas of reallocate_heap each use one block in every role and agree on the "
+        "argument positions; (W1) only the enumerated store primitives obtain a mutable view of the heap or write the stack heads, and "
+        "SimpleGarnishData's value list is append-only. Correctness for every interleaving/growth policy and interning are not decided.",
+    },
     "C09": {
         "rules": ["N1", "N2", "N3"],
         "claim": "Decides the no-wrap/no-trap/finiteness clauses of C09 on the code of impl GarnishNumber for SimpleNumber and its helpers: "
@@ -76,6 +96,8 @@ TECHNIQUE = {
     "C03": "resolved whole-workspace call graph (trait dispatch into both data impls) + MIR panic-site inventory (asserts, Index impls, unwrap/panic macros, std panickers) against a reviewed per-function allow-list; SCC check for recursion",
     "C07": "same call-graph reachability + MIR panic-site inventory over the runtime entry set; SCC check with a depth-bound allow-list",
     "C13": "path-partitioned abstract interpretation of the Lexer methods' MIR with a typestate on the error slot (assume-guarantee between methods); operator table extraction",
+    "C14": "origin (def-use) analysis over resolved HIR: byte-length sources vs character-count sinks; cast scan of the literal parsers",
+    "C15": "origin analysis of heap index expressions (interprocedural through parameters and struct fields); sibling cross-check of the six block push functions and copy stanzas; who-may-write tables over resolved calls",
     "C09": "MIR scan of the number implementation: raw integer BinaryOp/overflow asserts, unchecked std integer calls, overflow-flag dataflow to a branch, FloatToInt casts, dominator check of finiteness tests over Float constructions",
     "C12": "constant/predicate wiring check on the four comparison functions; comparable type-pair arm table",
 }
